@@ -147,8 +147,24 @@ def feature_key(features):
     return '-'.join(sorted(features)) or 'default'
 
 
-def build_harness(res, features=(), profile='release', bin='oracle', extra_env=None):
+STUB_SHAPES = '''// GENERATED stub (no derive shapes needed by this check)
+use crate::sx::*;
+pub fn run_shape(_id: usize, _op: &str, _args: &[Sx]) -> Sx {
+    tag("bad-shape", vec![])
+}
+pub fn wire_shape(_id: usize, _args: &[Sx]) -> Sx {
+    tag("bad-shape", vec![])
+}
+pub fn set_shape(_id: usize, _xs: &Sx, _calls: &[Sx]) -> Option<(Vec<Sx>, Sx)> {
+    None
+}
+'''
+
+
+def build_harness(res, features=(), profile='release', bin='oracle', extra_env=None, shapes_written=False):
     """(re)build the harness against /repo's working tree; returns path of the binary or None"""
+    if not shapes_written:
+        params.write_if_changed(os.path.join(VERIF, 'harness', 'src', 'gen_shapes.rs'), STUB_SHAPES)
     tdir = os.path.join(WORK, 'target')
     cmd = ['cargo', 'build', '--offline', '--bin', bin]
     if profile == 'release':
